@@ -44,6 +44,10 @@ def ppar_parts(quick):
             else: sizes = [0, bs, ps - bs, ps, ps + bs, 2 * ps, 2 * ps + 3 * bs, 3 * ps + (ps - bs)]
             for d in ("enc", "dec"):
                 out += ["ppar_%s_%s_%s_%d" % (c, be, d, sz) for sz in sizes]
+    # MANTIS: one function for both directions, the tweak array as a second data argument (WholeParM.v)
+    for be, ps in (("def", 32), ("v128", 64)):
+        sizes = ([ps + 24] if be != "def" else [24]) if quick else [0, 8, ps - 8, ps, ps + 8, 2 * ps, 2 * ps + 24, 3 * ps + (ps - 8)]
+        out += ["ppar_mc_%s_crypt_%d" % (be, sz) for sz in sizes]
     return out
 # SIMD CTR encryption functionally, vector block function as a procedure call (WholeCtrVec.v / WholeCtrVecModel.v):
 # (request size, offset) relative to the batch of L blocks
